@@ -562,6 +562,188 @@ func genTextmatch(repo string, args []string) (out string, err error) {
 		}
 		sb.WriteString("  end.\n\n")
 	}
+	sites, err := tmCallSites(t.fset, repo)
+	if err != nil {
+		return "", err
+	}
+	sb.WriteString(sites)
+	return sb.String(), nil
+}
+
+// ---- the three predicate call sites and the loader's compile sites: "the verdict is exactly pat.Match(text)"
+
+// tmInline replaces identifiers by the expressions they were defined from (x := e) so that a condition can be compared
+// with its canonical form whatever locals the author introduced; unknown expression kinds fail closed (ok=false)
+func tmInline(e ast.Expr, defs map[string]ast.Expr) (ast.Expr, bool) {
+	switch e := e.(type) {
+	case *ast.Ident:
+		if d, ok := defs[e.Name]; ok {
+			return tmInline(d, defs)
+		}
+		return e, true
+	case *ast.BasicLit:
+		return e, true
+	case *ast.ParenExpr:
+		return tmInline(e.X, defs)
+	case *ast.SelectorExpr:
+		x, ok := tmInline(e.X, defs)
+		return &ast.SelectorExpr{X: x, Sel: e.Sel}, ok
+	case *ast.CallExpr:
+		fn, ok := tmInline(e.Fun, defs)
+		out := &ast.CallExpr{Fun: fn}
+		for _, a := range e.Args {
+			a2, ok2 := tmInline(a, defs)
+			ok = ok && ok2
+			out.Args = append(out.Args, a2)
+		}
+		return out, ok && e.Ellipsis == token.NoPos
+	}
+	return e, false
+}
+
+// tmVerdict reads `return func(params *filterParams) matchFilterResult { [x := e]* ; if COND { return filterSuccess } ;
+// return filterFailure(src) }` and returns COND with the locals inlined; "" when the body has any other shape
+func tmVerdict(fset *token.FileSet, fd *ast.FuncDecl) string {
+	if fd == nil || len(fd.Body.List) == 0 {
+		return ""
+	}
+	ret, ok := fd.Body.List[len(fd.Body.List)-1].(*ast.ReturnStmt)
+	if !ok || len(ret.Results) != 1 || len(fd.Body.List) != 1 {
+		return ""
+	}
+	fl, ok := ret.Results[0].(*ast.FuncLit)
+	if !ok {
+		return ""
+	}
+	body := fl.Body.List
+	if len(body) < 2 {
+		return ""
+	}
+	defs := map[string]ast.Expr{}
+	for _, st := range body[:len(body)-2] {
+		as, ok := st.(*ast.AssignStmt)
+		if !ok || as.Tok != token.DEFINE || len(as.Lhs) != 1 || len(as.Rhs) != 1 {
+			return ""
+		}
+		id, ok := as.Lhs[0].(*ast.Ident)
+		if !ok || defs[id.Name] != nil {
+			return ""
+		}
+		defs[id.Name] = as.Rhs[0]
+	}
+	is, ok := body[len(body)-2].(*ast.IfStmt)
+	if !ok || is.Init != nil || is.Else != nil || normStmt(fset, is.Body) != normText("{return filterSuccess}") {
+		return ""
+	}
+	if normStmt(fset, body[len(body)-1]) != normText("return filterFailure(src)") {
+		return ""
+	}
+	cond, ok := tmInline(is.Cond, defs)
+	if !ok {
+		return ""
+	}
+	return exprString(fset, cond)
+}
+
+func tmCallSites(fset *token.FileSet, repo string) (string, error) {
+	ff, err := parser.ParseFile(fset, repo+"/ruleguard/filters.go", nil, 0)
+	if err != nil {
+		return "", err
+	}
+	lf, err := parser.ParseFile(fset, repo+"/ruleguard/ir_loader.go", nil, 0)
+	if err != nil {
+		return "", err
+	}
+	find := func(f *ast.File, name string) *ast.FuncDecl {
+		for _, d := range f.Decls {
+			if fd, ok := d.(*ast.FuncDecl); ok && fd.Name.Name == name {
+				return fd
+			}
+		}
+		return nil
+	}
+	type fact struct {
+		name string
+		ok   bool
+	}
+	var facts []fact
+	add := func(n string, ok bool) { facts = append(facts, fact{n, ok}) }
+	add("Text.Matches: the verdict is exactly re.Match(text of the captured node)",
+		tmVerdict(fset, find(ff, "makeTextMatchesFilter")) == "re.Match(params.nodeText(params.subNode(varname)))")
+	add("File().Name.Matches: the verdict is exactly re.MatchString(base name of the file)",
+		tmVerdict(fset, find(ff, "makeFileNameMatchesFilter")) == "re.MatchString(filepath.Base(params.filename))")
+	add("File().PkgPath.Matches: the verdict is exactly re.MatchString(package path)",
+		tmVerdict(fset, find(ff, "makeFilePkgPathMatchesFilter")) == "re.MatchString(params.ctx.Pkg.Path())")
+	// loader: which compiler produces `re` for each predicate, and that it is handed to the filter constructor unchanged
+	nf := find(lf, "newFilter")
+	clause := func(op string) []string {
+		var out []string
+		if nf == nil {
+			return nil
+		}
+		ast.Inspect(nf.Body, func(n ast.Node) bool {
+			cc, ok := n.(*ast.CaseClause)
+			if !ok {
+				return true
+			}
+			for _, e := range cc.List {
+				if exprString(fset, e) == "ir."+op {
+					for _, st := range cc.Body {
+						out = append(out, normStmt(fset, st))
+					}
+				}
+			}
+			return true
+		})
+		return out
+	}
+	has := func(stmts []string, want string) bool {
+		n := 0
+		for _, x := range stmts {
+			if x == normText(want) {
+				n++
+			}
+		}
+		return n == 1
+	}
+	fileClause := func(op, ctor string) bool {
+		c := clause(op)
+		return len(c) == 3 && c[0] == normText("re, err := regexp.Compile(filter.Value.(string))") &&
+			strings.HasPrefix(c[1], normText("if err != nil {return ")) &&
+			c[2] == normText("result.fn = "+ctor+"(result.src, re)")
+	}
+	add("loader: File().Name.Matches is compiled by regexp.Compile and used as is", fileClause("FilterFileNameMatchesOp", "makeFileNameMatchesFilter"))
+	add("loader: File().PkgPath.Matches is compiled by regexp.Compile and used as is", fileClause("FilterFilePkgPathMatchesOp", "makeFilePkgPathMatchesFilter"))
+	tc := clause("FilterVarTextMatchesOp")
+	add("loader: Text.Matches is compiled by unwrapRegexpExpr and used as is",
+		len(tc) == 3 && tc[0] == normText("re, err := l.unwrapRegexpExpr(filter.Args[0])") && strings.HasPrefix(tc[1], normText("if err != nil {return ")) &&
+			tc[2] == normText("result.fn = makeTextMatchesFilter(result.src, filter.Value.(string), re)"))
+	ur := find(lf, "unwrapRegexpExpr")
+	var us []string
+	if ur != nil {
+		for _, st := range ur.Body.List {
+			us = append(us, normStmt(fset, st))
+		}
+	}
+	add("loader: unwrapRegexpExpr returns textmatch.Compile of the pattern string (empty pattern rejected)",
+		len(us) == 5 && us[0] == normText("patternString := l.unwrapStringExpr(filter)") &&
+			strings.HasPrefix(us[1], normText("if patternString == \"\" {return nil, l.errorf(")) &&
+			us[2] == normText("re, err := textmatch.Compile(patternString)") && has(us, "return re, nil") && us[4] == normText("return re, nil"))
+	var sb strings.Builder
+	sb.WriteString("Require Import Coq.Strings.String.\n(* the predicate call sites and the loader's compile sites; false = not of the expected form *)\n")
+	sb.WriteString("Definition gen_match_sites : list (string * bool) := [\n")
+	for i, f := range facts {
+		sep := ";"
+		if i == len(facts)-1 {
+			sep = ""
+		}
+		b := "false"
+		if f.ok {
+			b = "true"
+		}
+		fmt.Fprintf(&sb, "  (%q%%string, %s)%s\n", f.name, b, sep)
+	}
+	sb.WriteString("].\n")
 	return sb.String(), nil
 }
 
